@@ -395,7 +395,29 @@ class _SSeq(object):
                 self._mk(self._e[i + len(s):]))
 
     def splitlines(self, keepends=False):
-        raise Unsupported('splitlines on symbolic sequence')
+        # bytes: \n, \r, \r\n; str: also \v \f \x1c-\x1e \x85 \u2028 \u2029
+        brk = (10, 13) if self._is_bytes else \
+            (10, 11, 12, 13, 28, 29, 30, 133, 0x2028, 0x2029)
+
+        def dec(c):
+            return c if isinstance(c, bool) else bool(mkbool(c))
+        out = []
+        e = self._e
+        n = len(e)
+        i = start = 0
+        while i < n:
+            if dec(_in_ints(e[i], brk)):
+                end = i
+                if dec(e[i] == 13) and i + 1 < n and dec(e[i + 1] == 10):
+                    i += 1
+                i += 1
+                out.append(self._mk(e[start:i] if keepends else e[start:end]))
+                start = i
+            else:
+                i += 1
+        if start < n:
+            out.append(self._mk(e[start:]))
+        return out
 
     def _strip_pred(self, chars):
         if chars is None:
